@@ -373,9 +373,11 @@ Qed.
 (** seek(off, whence) on a wrapper whose parent is file-like (no reversal) *)
 Definition seek_target (size pos off wh : Z) : Z :=
   clamp_pos size ((if wh =? 1 then pos else if wh =? 2 then size else 0) + off).
+Lemma clamp_pos_pos size np : 0 < size -> clamp_pos size np = if np >? size then size else if np <? 0 then 0 else np.
+Proof. intros H. unfold clamp_pos. destruct (Z.ltb_spec 0 size); [reflexivity|lia]. Qed.
 Lemma seek_target_range size pos off wh : 0 < size -> 0 <= seek_target size pos off wh <= size.
 Proof.
-  intros. unfold seek_target, clamp_pos.
+  intros. unfold seek_target. rewrite clamp_pos_pos by assumption.
   destruct (Z.gtb_spec ((if wh =? 1 then pos else if wh =? 2 then size else 0) + off) size); [lia|].
   destruct (Z.ltb_spec ((if wh =? 1 then pos else if wh =? 2 then size else 0) + off) 0); lia.
 Qed.
@@ -405,7 +407,7 @@ Proof.
   intros Hsize Hk HF s a Hg Ha.
   destruct (seek_user k size sub content Hsize Hk HF s a 0 Hg) as (s' & E & G & T).
   exists (seek_target size (v_tell s) a 0), s'. split; [assumption|]. split; [assumption|].
-  rewrite T. unfold seek_target, clamp_pos. cbn [Z.eqb Z.add].
+  rewrite T. unfold seek_target. rewrite clamp_pos_pos by assumption. cbn [Z.eqb Z.add].
   destruct (Z.gtb_spec a size); [lia|]. destruct (Z.ltb_spec a 0); lia.
 Qed.
 
@@ -543,7 +545,7 @@ Proof.
     rewrite E. exists s'. rewrite Hlen.
     assert (Heq : seek_target size (v_tell s) off wh
                   = Z.max 0 (Z.min size ((if wh =? 1 then v_tell s else if wh =? 2 then size else 0) + off))).
-    { unfold seek_target, clamp_pos.
+    { unfold seek_target. rewrite clamp_pos_pos by assumption.
       destruct (Z.gtb_spec ((if wh =? 1 then v_tell s else if wh =? 2 then size else 0) + off) size); [lia|].
       destruct (Z.ltb_spec ((if wh =? 1 then v_tell s else if wh =? 2 then size else 0) + off) 0); lia. }
     rewrite <- Heq. auto.
